@@ -238,6 +238,13 @@ pub fn c19t(ctx: &Ctx, begin: &mut dyn FnMut(J)) -> Outcome {
             sw.swap(k, k + 1);
             judge_total(&mut out, &sw.join(" "), "tokens_swapped");
         }
+        // a multi-byte character glued to / inserted before the token (cursor arithmetic on char boundaries)
+        let mut mb = toks.clone();
+        mb[k] = format!("\u{e9}{}\u{3b1}", toks[k]);
+        judge_total(&mut out, &mb.join(" "), "multibyte_glued_to_token");
+        let mut ins = toks.clone();
+        ins.insert(k, "\u{2003}\u{e9}".to_string());
+        judge_total(&mut out, &ins.join(""), "multibyte_inserted_no_spaces");
     }
     out
 }
